@@ -5,6 +5,8 @@
 #include <llvm/ADT/DenseMap.h>
 #include <llvm/ADT/PostOrderIterator.h>
 #include <llvm/IR/CFG.h>
+#include <llvm/Analysis/LoopInfo.h>
+#include <llvm/IR/Dominators.h>
 #include <llvm/ADT/SmallPtrSet.h>
 #include <llvm/ADT/StringExtras.h>
 #include <llvm/Demangle/Demangle.h>
@@ -40,6 +42,7 @@ struct Ctx
     const DataLayout& DL;
     bool res = false;    // resumable mode
     bool exprInline = true;    // fold single-use pure instructions into their user
+    bool flat = false;   // res mode layout: guarded segments in a re-run loop (see emit.cpp)
     bool chain = false;  // res mode layout: skip chain (Lazy-CSeq style) instead of early returns
     std::string prefix;  // root prefix
 
